@@ -17,6 +17,8 @@ fn main() {
 		"response_size_limit" => probes::response_size_limit(),
 		"params_builder_failed_insert" => probes::params_builder_failed_insert(),
 		"params_builder_roundtrip" => probes::params_builder_roundtrip(),
+		"http_body_chunking" => probes::http_body_chunking(),
+		"http_content_type_gate" => probes::http_content_type_gate(),
 		_ => json!({"probe": name, "error": "unknown probe"}),
 	};
 	println!("{}", res);
